@@ -44,13 +44,63 @@ theorem aggregate_filter [NumOps N] (fn : Calc.Impl.AggFn) (l : List (Calc.Spec.
 
 end Agg
 
+/-! ### (A') the transcription of calc.go's aggregates (`Calc.Impl.aggregate`) ignores empty cells -/
+
+section AggImpl
+open Calc
+variable {N : Type}
+
+def nonEmptyB : Calc.Impl.CellArg N → Bool
+  | .empty => false
+  | _ => true
+
+theorem foldl_filter_id {σ β : Type} (step : σ → β → σ) (p : β → Bool) (l : List β) (s : σ)
+    (h : ∀ s x, p x = false → step s x = s) : (l.filter p).foldl step s = l.foldl step s := by
+  induction l generalizing s with
+  | nil => rfl
+  | cons x xs ih =>
+    by_cases hx : p x = true
+    · simp [List.filter, hx, ih]
+    · have hx' : p x = false := by simpa using hx
+      simp [List.filter, hx', h s x hx', ih]
+
+/-- every aggregate of the Impl except SUM skips empty cells outright; SUM adds `zero` for one, so it
+needs `x + 0 = x` of the numeric carrier -/
+theorem impl_aggregate_filter [NumOps N] (fn : Calc.Impl.AggFn) (l : List (Calc.Impl.CellArg N))
+    (hz : fn = .sum → ∀ s : N, NumOps.add s NumOps.zero = s) :
+    Calc.Impl.aggregate fn (l.filter nonEmptyB) = Calc.Impl.aggregate fn l := by
+  have hne : ∀ x : Calc.Impl.CellArg N, nonEmptyB x = false → x = .empty := by
+    intro x hx; cases x <;> simp [nonEmptyB] at hx ⊢
+  cases fn with
+  | sum =>
+    simp only [Calc.Impl.aggregate]
+    rw [foldl_filter_id Calc.Impl.sumStep nonEmptyB l _ (fun s x hx => by
+      rw [hne x hx]; exact hz rfl s)]
+  | average =>
+    simp only [Calc.Impl.aggregate]
+    rw [foldl_filter_id Calc.Impl.avgStep nonEmptyB l _ (fun s x hx => by rw [hne x hx]; rfl)]
+  | count =>
+    simp only [Calc.Impl.aggregate]
+    rw [foldl_filter_id Calc.Impl.countStep nonEmptyB l _ (fun s x hx => by rw [hne x hx]; rfl)]
+  | counta =>
+    simp only [Calc.Impl.aggregate]
+    rw [foldl_filter_id Calc.Impl.countaStep nonEmptyB l _ (fun s x hx => by rw [hne x hx]; rfl)]
+  | max =>
+    simp only [Calc.Impl.aggregate]
+    rw [foldl_filter_id Calc.Impl.maxStep nonEmptyB l _ (fun s x hx => by rw [hne x hx]; rfl)]
+  | min =>
+    simp only [Calc.Impl.aggregate]
+    rw [foldl_filter_id Calc.Impl.minStep nonEmptyB l _ (fun s x hx => by rw [hne x hx]; rfl)]
+  | product =>
+    simp only [Calc.Impl.aggregate]
+    rw [foldl_filter_id Calc.Impl.productStep nonEmptyB l _ (fun s x hx => by rw [hne x hx]; rfl)]
+
+end AggImpl
+
 /-! ### (B) intervals of indices under insertion / deletion -/
 
 section Seg
 variable {α : Type} (P : α → Bool)
-
-/-- the indices `a, a+1, …, b` -/
-def idxs (a b : Nat) : List Nat := List.range' a (b + 1 - a)
 
 /-- contents of the interval `[a,b]` (each index contributes a list), kept elements only -/
 def seg (F : Nat → List α) (a b : Nat) : List α := ((idxs a b).flatMap F).filter P
@@ -200,11 +250,6 @@ end Seg
 
 section Rect
 variable {V : Type} (P : V → Bool)
-
-/-- the cells `(col,row)` of a rectangle in row-major order (the order in which calc.go's range
-resolution lists them) -/
-def cellsOf (c1 r1 c2 r2 : Nat) : List (Nat × Nat) :=
-  (idxs r1 r2).flatMap (fun row => (idxs c1 c2).map (fun col => (col, row)))
 
 def rowVals (g : Nat × Nat → V) (c1 c2 row : Nat) : List V := (idxs c1 c2).map (fun col => g (col, row))
 
